@@ -74,6 +74,7 @@ func (q *MultiOpQueryer) Subscribe(req *requests.Request, closeCh <-chan struct{
 			common.VerifPoint(vid, "sub.reader.done")
 		}()
 
+		common.VerifPoint(vid, "sub.reader.start")
 		bInitMsg, err := json.Marshal(requests.ClientSubMsg{
 			Type: requests.SubConnectionInit,
 		})
